@@ -3,6 +3,7 @@ package wasp
 import (
 	"time"
 
+	"github.com/vx-labs/mqtt-protocol/packet"
 	"github.com/vx-labs/wasp/v4/wasp/distributed"
 )
 
@@ -31,9 +32,32 @@ func (n *nodeMemberManager) NotifyGossipLeave(id uint64) {
 	sessions := n.state.SessionMetadatas().ByPeer(id)
 	for _, session := range sessions {
 		lwt := session.LWT
-		if lwt != nil {
-			n.log.Append(lwt)
+		if lwt == nil {
+			continue
 		}
+		// The record carries the will as the client wrote it. Publish it like the
+		// connection-loss path does: inside the session's mount point, retained if
+		// asked for, and without the retain flag on the live copy.
+		will := &packet.Publish{
+			Header:  &packet.Header{},
+			Topic:   []byte(session.MountPoint + "/" + string(lwt.Topic)),
+			Payload: lwt.Payload,
+		}
+		if lwt.Header != nil {
+			will.Header.Qos = lwt.Header.Qos
+			if lwt.Header.Retain {
+				if len(will.Payload) == 0 {
+					n.state.Topics().Delete(will.Topic)
+				} else {
+					n.state.Topics().Set(&packet.Publish{
+						Header:  &packet.Header{Qos: will.Header.Qos, Retain: true},
+						Topic:   will.Topic,
+						Payload: will.Payload,
+					})
+				}
+			}
+		}
+		n.log.Append(will)
 	}
 	go func() {
 		<-time.After(3 * time.Second)
